@@ -487,11 +487,12 @@ class Bench:
                 c2.load(self.destarg, fmt)
             out = "ok"
         except Exception as e:  # noqa
-            return {"op": "Load", "i": 0, "out": "raised", "eq": [False] * len(self.paths), "exc": "%s: %s" % (type(e).__name__, str(e)[:100])}
+            return {"op": "Load", "i": 0, "out": "raised", "eq": ["diff"] * len(self.paths), "exc": "%s: %s" % (type(e).__name__, str(e)[:100])}
         eq = []
         for path in self.paths:
             a, b = self.cfg[path], c2[path]
-            eq.append(bool(type(a) is type(b) and a == b))
+            # the observation: same value and type | came back as None | anything else
+            eq.append("same" if (type(a) is type(b) and a == b) else "none" if b is None else "diff")
         return {"op": "Load", "i": 0, "out": out, "eq": eq}
 
 
@@ -630,7 +631,7 @@ def pool_map(fn, items, procs=16, chunk=64):
 
 
 # ---- TLC instances ---------------------------------------------------------------------
-def write_cfg(path, maxn, rounds, faults, kinds="MCKinds", formats="MCFormats", check=True, export=True, blank=False):
+def write_cfg(path, maxn, rounds, faults, kinds="MCKinds", formats="MCFormats", check=True, export=True):
     lines = [
         "CONSTANTS",
         "  MaxN = %d" % maxn,
@@ -638,7 +639,6 @@ def write_cfg(path, maxn, rounds, faults, kinds="MCKinds", formats="MCFormats", 
         "  MaxFaults = %d" % faults,
         "  Kinds <- %s" % kinds,
         "  Formats <- %s" % formats,
-        "  BlankSecretLost = %s" % ("TRUE" if blank else "FALSE"),
         "INIT Init",
         "NEXT Next",
     ]
@@ -665,78 +665,17 @@ INSTANCES = {
 }
 
 
-BLANK_SIGNATURE = "C19_LoadsBack:blank-secret-loads-back-as-none"
-
-
-def blank_secret_check(out, scratch, tier):
-    """A SecureField holding "" (named deviation BlankSecretLost of CincoSave).
-
-    TLC checks C19 on the intended design and on the mirror of the pinned tree; the real code
-    has to behave like one of the two.  If it behaves like the mirror and TLC found the property
-    violated on the mirror, that is a violation of C19 by the library (stable signature)."""
-    p = dict(maxn=2 if tier == "quick" else 3, rounds=1, faults=1, kinds="MCKindsB")
-    runs = {}
-    for name, kw in [
-        ("intended", dict(blank=False, check=True, export=True)),
-        ("mirror", dict(blank=True, check=True, export=False)),
-        ("mirror_export", dict(blank=True, check=False, export=True)),
-    ]:
-        cfg = os.path.join(scratch, "MC_CincoSave_blank_%s.cfg" % name)
-        write_cfg(cfg, **p, **kw)
-        runs[name] = tlc.run("MC_CincoSave.tla", cfg, workers=1, keep=("CASE",))
-    ri, rm, rx = runs["intended"], runs["mirror"], runs["mirror_export"]
-    if not ri.ok:
-        out.violation("spec:blank:%s" % ri.violation, "TLC: %s violated on the intended design with blank secrets" % ri.violation, {"kind": "tlc-counterexample", "behaviour": ri.cex})
-    key = lambda c: json.dumps(case_from_spec(c), sort_keys=True)  # noqa
-    mirror = {key(c): c for c in rx.printed.get("CASE", [])}
-    cases = ri.printed.get("CASE", [])
-    results = pool_map(_run_spec_case, cases)
-    deviating = []
-    bad = 0
-    for c, (cmp_, events) in zip(cases, results):
-        if cmp_ is None or cmp_[0]:
-            continue
-        m = mirror.get(key(c))
-        cm = compare(expected_events(m), events) if m is not None else cmp_
-        if cm is None or cm[0]:
-            deviating.append((c, m, events))
-            continue
-        bad += 1
-        if bad <= 5:
-            out.violation(cm[1], "spec->code (blank secret): save behaviour matches neither the intended design nor the mirror: %s" % cm[2], {"kind": "case-differs", "case": case_from_spec(c), "expected_by_spec": expected_events(c), "observed_on_code": events})
-    if deviating:
-        c, m, events = deviating[0]
-        if rm.violation is not None:
-            out.violation(
-                BLANK_SIGNATURE,
-                'C19_LoadsBack: a SecureField holding "" is written as null and loads back as None (%d of %d behaviours with a blank secret; '
-                "TLC: %s violated on the mirror specification, reproduced on the library)" % (len(deviating), len(cases), rm.violation),
-                {"kind": "named-deviation", "deviation": "BlankSecretLost", "tlc_violation_on_mirror": rm.violation, "tlc_counterexample": rm.cex, "case": case_from_spec(c), "expected_by_intended_spec": expected_events(c), "expected_by_mirror_spec": expected_events(m), "observed_on_code": events},
-            )
-        else:
-            out.notes.append("blank secret: code follows the mirror specification, on which TLC found no violation")
-    return {
-        "states": ri.distinct + rm.distinct + rx.distinct,
-        "transitions": ri.generated + rm.generated + rx.generated,
-        "behaviours": len(cases),
-        "behaviours_matching_mirror_only": len(deviating),
-        "tlc_on_mirror": rm.violation or "no violation",
-        "tlc_on_intended": ri.violation or "no violation",
-        "mismatching": bad,
-    }
-
-
 # ---- code -> spec driver -----------------------------------------------------------------
 def gen_case(rng):
     """A random schema / values / formats / fault sets; never consults the specification."""
     n = rng.choice([1, 2, 3, 4, 5, 6, 8, 10])
     kinds, extras = [], []
     for _ in range(n):
-        kind = rng.choice(["plain"] * 6 + ["secret"] * 4 + ["esecret", "nsecret", "nsecret"] + rng.choice([["plain"], ["set", "huge", "raw"]]))
+        kind = rng.choice(["plain"] * 6 + ["secret"] * 4 + ["esecret", "bsecret", "nsecret", "nsecret"] + rng.choice([["plain"], ["set", "huge", "raw"]]))
         ex = {}
         if kind == "plain":
             ex["cls"] = rng.choice(PLAIN_CLASSES)
-        if kind in ("secret", "esecret", "nsecret"):
+        if kind in ("secret", "esecret", "bsecret", "nsecret"):
             ex["method"] = rng.choice(["aes", "xor", "best"])
         if kind == "nsecret":
             ex["depth"] = rng.randrange(1, 4)
@@ -873,12 +812,6 @@ def run(tier, seed):
             pick = [c for c in cases if seq(c["rounds"])[0]["out"] == "raised" and len(seq(c["rounds"])[0]["log"]) > 3]
             samples.append({"spec_to_code_case": (pick or cases)[len(pick or cases) // 2]})
 
-    blank = blank_secret_check(out, scratch, tier)
-    states += blank["states"]
-    transitions += blank["transitions"]
-    n_exec += blank["behaviours"]
-    n_cases += blank["behaviours"]
-
     # (c) code -> spec: random driver on the real library, validated by TLC
     n_traces = 600 if tier == "quick" else 6000
     rng = random.Random(seed)
@@ -890,7 +823,7 @@ def run(tier, seed):
     tcfg = os.path.join(scratch, "Trace_CincoSave.cfg")
     with open(tcfg, "w") as fp:
         fp.write(
-            "CONSTANTS\n  MaxN = 1\n  MaxRounds = 1\n  MaxFaults = 0\n  Kinds <- TrKinds\n  Formats <- TrFormats\n  BlankSecretLost = FALSE\n"
+            "CONSTANTS\n  MaxN = 1\n  MaxRounds = 1\n  MaxFaults = 0\n  Kinds <- TrKinds\n  Formats <- TrFormats\n"
             "INIT TraceInit\nNEXT TraceNext\nACTION_CONSTRAINT Report\nCONSTRAINT ReportState\n"
         )
     verdicts, tstats = tracecheck.validate("Trace_CincoSave.tla", tcfg, [{"init": t["init"], "events": t["events"]} for t in traces])
@@ -922,7 +855,6 @@ def run(tier, seed):
         "transitions": transitions,
         "exhaustive": exhaustive,
         "tlc_instances": inst_cov,
-        "blank_secret_instance": blank,
         "traces_validated_against_impl": n_exec + len(verdicts),
         "spec_to_code_behaviours": n_exec,
         "spec_to_code_saves_by_outcome": dict(by_out),
@@ -936,7 +868,7 @@ def run(tier, seed):
         "evaluations": n_exec + d_rounds,
         "distinct_nontrivial": len(distinct),
         "rule": "spec->code: one case per complete behaviour of the TLC instance = (schema of 1..MaxN field kinds out of "
-        "plain/secret/unset secret/nested secret/set/huge int) x (destination previously saved | absent) x per save (format x fault set x "
+        "plain/secret/unset secret/empty-string secret/nested secret/set/huge int) x (destination previously saved | absent) x per save (format x fault set x "
         "key file valid/wrong size/missing); code->spec: seeded random schemas of 1..10 fields, 8 plain field classes, nested depth <= 3, "
         "1..4 saves, up to 3 simultaneous faults, 6 formats incl. a registered custom one, format options, key sizes 0..64; "
         "distinct = distinct (schema, initial destination, per-save parameters); trivial = none excluded (every case has a "
